@@ -641,9 +641,14 @@ def check(rep, tier, seed):
                     sigs[label].setdefault(_json.dumps(sg, sort_keys=True), wit)
                 rep.case(("replay", mname, label), n=max(1, sh.evaluations))
                 rep.count("replayed_cases_" + label, sh.evaluations)
+            own, _fx = _report.load_findings(mname.upper())
             for key, wit in sigs["asan-rz"].items():
                 if key not in sigs["hooks"]:
                     sg = _json.loads(key)
+                    # a listed finding of the workload's own property is that property's business, whichever build shows it
+                    if any(_report._match(f["match"], sg) for f in own if f["property"] == mname.upper()):
+                        rep.count("replay_signatures_covered_by_the_workloads_own_findings")
+                        continue
                     rep.violation({"check": "replay-on-sanitized-build", "workload": mname,
                                    "mode": sg.get("mode") or sg.get("kind") or sg.get("check")},
                                   {"workload_signature": sg, "witness": wit})
